@@ -957,7 +957,8 @@ matrix_ass_subscr_impl(matrix* self, PyObject* args, PyObject* val)
 
   /* two slices, RHS of same type, handled separately for speed */
   if (PySlice_Check(argI) && PySlice_Check(argJ) &&
-      Matrix_Check(val) && MAT_ID(val) == MAT_ID(self)) {
+      Matrix_Check(val) && MAT_ID(val) == MAT_ID(self) &&
+      MAT_LGT(val) != 1) {  /* a 1 x 1 matrix is a scalar (general case) */
 
     int_t rowstart, rowstop, rowstep, rowlgt;
     int_t colstart, colstop, colstep, collgt;
